@@ -40,6 +40,15 @@ def one(rng, acc, d, clsname, record=True):
     (d / "out").mkdir()
     ncont = rng.randint(1, 6)
     rec, log, commits = RE.build_record(rng, d / "src", "rec", cls, ncont, ops_per=(1, 7), exts_prob=0.4)
+    # sometimes the record is merged through the OTHER record class (documented: an IH5MFRecord is a valid IH5Record, and an
+    # IH5Record can be opened as IH5MFRecord)
+    mixed = rng.random() < 0.3
+    if mixed:
+        files = list(rec.ih5_files)
+        rec.close()
+        cls = RE.IH5Record if cls is RE.IH5MFRecord else RE.IH5MFRecord
+        rec = cls(files, "r")
+        acc.count("merges_through_other_class") if record else None
     src_dump = E.full_dump(rec)
     meta_before = [meta_key(u) for u in rec.ih5_meta]
     files_before = list(rec.ih5_files)
@@ -61,7 +70,7 @@ def one(rng, acc, d, clsname, record=True):
     if fsmon.dir_state(d / "src") != s_src:
         return "source-disk-changed", "source files changed on disk by merge"
     out_files = sorted(p.name for p in (d / "out").iterdir())
-    want = ["mrg.ih5"] + (["mrg.ih5mf.json"] if cls is RE.IH5MFRecord else [])
+    want = ["mrg.ih5"] + (["mrg.ih5mf.json"] if cls is RE.IH5MFRecord else [])  # (the merging class decides)
     if out_files != want:
         return "merge-target-files", f"target directory holds {out_files}, expected {want}"
 
@@ -83,9 +92,15 @@ def one(rng, acc, d, clsname, record=True):
             return "merged-identity", "prev_patch of merged container != prev_patch of the oldest source container"
         if mm.hdf5_hashsum is None:
             return "merged-identity", "merged container is not committed"
-        if cls is RE.IH5MFRecord:
+        if cls is RE.IH5MFRecord and not mixed:
             if m.manifest.manifest_exts != rec.manifest.manifest_exts or m.manifest.manifest_uuid != rec.manifest.manifest_uuid:
                 return "merged-manifest", "merged record does not carry the source's manifest"
+        if mixed:  # the merged container must also open with the class the source was written with
+            other = RE.IH5Record if cls is RE.IH5MFRecord else RE.IH5MFRecord
+            m3, err = RE.try_open(RE.IH5Record, d / "out" / "mrg", "r")
+            if m3 is None:
+                return "merged-unopenable", f"merged container (merged through {clsname} counterpart) does not open as IH5Record: {err}"
+            m3.close()
     finally:
         m.close()
     # -- (ii) really materialised: plain h5py sees the same tree
@@ -96,6 +111,8 @@ def one(rng, acc, d, clsname, record=True):
 
     # -- (v) follow-up patch on the source applies to the merged container with the same result
     rec.close()
+    if mixed:
+        return finish(acc, clsname, log, ncont, record)  # follow-up chains across classes are not compared
     rec = cls(d / "src" / "rec", "r+")
     gen = DataGen(rng, boundaries=False, allow_self_copy=False)
     RE.fill(rec, gen, rng.randint(1, 8), log)
@@ -121,6 +138,12 @@ def one(rng, acc, d, clsname, record=True):
         acc.case([clsname, log], nontrivial=ncont >= 2)
         if acc.evaluations % 60 == 1:
             acc.sample({"cls": clsname, "containers": ncont, "ops": log[:12]})
+    return None
+
+
+def finish(acc, clsname, log, ncont, record):
+    if record:
+        acc.case([clsname, "mixed", log], nontrivial=ncont >= 2)
     return None
 
 
@@ -217,7 +240,7 @@ def run_unit(u, acc):
 def inconclusive(cov):
     c = cov["counters"]
     r = []
-    for k in ("merges", "followups_compared", "refusals_checked", "stub_refusals_checked"):
+    for k in ("merges", "followups_compared", "refusals_checked", "stub_refusals_checked", "merges_through_other_class"):
         if not c.get(k):
             r.append(f"monitor counter {k} is zero")
     return r
